@@ -59,7 +59,32 @@ fn chunks<'a, E>(it: impl Iterator<Item = Result<&'a [u8], E>>) -> Result<String
 fn dec(w: &[&str]) -> String {
     let input = match w.get(1).and_then(|h| unhex(h)) { Some(b) => b, None => return "bad-op".into() };
     let mut d = Decoder::new(&input);
-    let r: Result<String, minicbor::decode::Error> = match w[0] {
+    match dec_on(&mut d, w[0]) { Some(s) => s, None => "bad-op".into() }
+}
+
+/// `reuse <hex> <pos>:<accessor>;…`: ONE decoder through the whole script (`set_position`, then the accessor / typed decode of `dec`)
+/// next to a fresh decoder per step: `<steps that agreed> -` or the first step that did not, `reused => fresh`.
+fn reuse(w: &[&str]) -> String {
+    if w.len() != 2 { return "bad-op".into() }
+    let input = match unhex(w[0]) { Some(b) => b, None => return "bad-op".into() };
+    let mut d = Decoder::new(&input);
+    let mut same = 0usize;
+    for st in w[1].split(';') {
+        let (p, what) = match st.split_once(':') { Some(x) => x, None => return "bad-op".into() };
+        let pos = match p.parse::<usize>() { Ok(p) if p <= input.len() => p, _ => return "bad-op".into() };
+        d.set_position(pos);
+        let a = match dec_on(&mut d, what) { Some(a) => a, None => return "bad-op".into() };
+        let mut f = Decoder::new(&input);
+        f.set_position(pos);
+        let b = dec_on(&mut f, what).unwrap();
+        if a != b { return format!("{} {}: {} => {}", same, st, a, b) }
+        same += 1;
+    }
+    format!("{} -", same)
+}
+
+fn dec_on<'b>(d: &mut Decoder<'b>, name: &str) -> Option<String> {
+    let r: Result<String, minicbor::decode::Error> = match name {
         "bool" => d.bool().map(|x| (x as u8).to_string()),
         "u8" => d.u8().map(|x| x.to_string()),
         "u16" => d.u16().map(|x| x.to_string()),
@@ -119,12 +144,12 @@ fn dec(w: &[&str]) -> String {
             let f = |o: &Option<(u8, bool)>| match o { None => "N".to_string(), Some((a, b)) => format!("S([{},{}])", a, if *b { "T" } else { "F" }) };
             format!("[{},{}]", f(&x[0]), f(&x[1])) }),
         "t:enum(u8,str)" => d.decode::<Result<u8, &str>>().map(|x| match x { Ok(v) => format!("V0({})", v), Err(e) => format!("V1(s{})", hex(e.as_bytes())) }),
-        _ => return "bad-op".into()
+        _ => return None
     };
-    match r {
+    Some(match r {
         Ok(v) => format!("ok {} {}", v, d.position()),
         Err(e) => format!("err {} {}", dclass(&e), d.position())
-    }
+    })
 }
 
 /// one Encoder call `name[:arg]` on any sink; `None` = malformed.
@@ -437,6 +462,7 @@ fn dispatch(w: &[&str]) -> String {
         "enc" => enc(&w[1..]),
         "encseq" => encseq(&w[1..]),
         "dec" => dec(&w[1..]),
+        "reuse" => reuse(&w[1..]),
         _ => "bad-op".into()
     }
 }
